@@ -67,3 +67,12 @@ Definition judge_subset_names (names : list (nat * token)) (N : nfa nat) (implQ 
                            check (eqb (state_set_name (map (name_of names) (dq0 D))) implq0) 1 ]
   | None => 0
   end.
+
+(* ---- pda_to_cfg, larger automata: the words of length <= n generated by the returned grammar (enumerated by the library's own
+   cfg_words_up_to_n, which C02 / C07 judge separately) against the proved-exact bounded language of the model PDA ---- *)
+From GT Require Import Model.PDA.
+Definition judge_cfg_words_of_pda (P : pda) (n : nat) (ows : option (list word)) : nat :=
+  match ows with
+  | None => 0
+  | Some ws => let '(L, tr) := pda_words pick_head P 2000 n in if tr then 1 else check (seteqb L ws) 44
+  end.
